@@ -40,13 +40,19 @@ def _norm(d):
     return {(k if k.endswith('_threshold') or k == 'min_n_cycles' else k + '_threshold'): v for k, v in d.items()}
 
 
-def snap_heap(D):
+# the find_extrema options the user shares between objects and calls (dictionary 4): filter length in cycles, in SECONDS, no filter options at
+# all (only a boundary), no padding - chosen per session; never edited, must never change
+FE_VARIANTS = [{'filter_kwargs': {'n_cycles': 4}, 'boundary': 2}, {'filter_kwargs': {'n_seconds': 0.625}, 'boundary': 2}, {'boundary': 2},
+               {'pad': False, 'filter_kwargs': {'n_cycles': 3}}]
+
+
+def snap_heap(D, fe_literal=FE_VARIANTS[0]):
     out = []
     for r in (1, 2, 3, 4, 5, 6):
         d = D[r]
         mnc = d.get('min_n_cycles', 0)
         if r == 4:
-            out.append({'mnc': 0, 'lvl': 1 if d == {'filter_kwargs': {'n_cycles': 4}, 'boundary': 2} else 9})
+            out.append({'mnc': 0, 'lvl': 1 if d == fe_literal else 9})
             continue
         if r == 2:
             lvl = 1
@@ -85,6 +91,8 @@ def replay(behaviour, shorthand=None):
     SIG = signals()
     default_fe = sum(a['o'] + a['s'] for a in behaviour) % 2 == 1      # objects built with the library's default extrema options (None)
     D = fresh_dicts()                    # the user's dictionaries (identity persists through the session)
+    fe_literal = FE_VARIANTS[sum(3 * a['o'] + a['s'] + a['v'] + len(a.get('f', '')) for a in behaviour) % 4]
+    D[4] = copy.deepcopy(fe_literal)
     if shorthand:
         for r in (1, 3, 5, 6):
             D[r] = {k.replace('_threshold', ''): v for k, v in D[r].items()}
@@ -204,7 +212,7 @@ def replay(behaviour, shorthand=None):
                         tab = TAB[(s, m)]
                     elif f == 'compute_burst_features_inverted_flanks':
                         tab, sig = SHPN[s], NOISY[s]
-                    dicts = [D[tk], D[2], D[4], D[4]['filter_kwargs']] + (OUTER[m] if f.startswith('compute_features_2d') or f == 'compute_features_3d' else [])
+                    dicts = [D[tk], D[2], D[4], D[4].get('filter_kwargs', {})] + (OUTER[m] if f.startswith('compute_features_2d') or f == 'compute_features_3d' else [])
                     if f.startswith('compute_features_2d'):
                         sig = SIGS2
                     elif f == 'compute_features_3d':
@@ -264,6 +272,6 @@ def replay(behaviour, shorthand=None):
                     ev['result_fp'] = pt.table_fp(res) if res is not None else 1
             except Exception as ex:
                 ev['raised'] = type(ex).__name__ + ':' + str(ex)[:70]
-        ev['heap'] = snap_heap(D)
+        ev['heap'] = snap_heap(D, fe_literal)
         events.append(ev)
     return events
